@@ -65,4 +65,6 @@ class StochasticFiniteStateController(POMDPPolicy):
     def next_agentstate(self, ag : AgentState, a : Action, o : Observation) -> AgentState:
         oi = self.pomdp.observation_index[o]
         ai = self.pomdp.action_list.index(a)
-        return ag @ self.observation_strategy[:, ai, oi]
+        # condition the node distribution on the action that was actually taken
+        ag = ag * self.action_strategy[:, ai]
+        return (ag / ag.sum()) @ self.observation_strategy[:, ai, oi]
